@@ -153,20 +153,15 @@ def sites : List Site := [
     hash := "7fa1a8aaa01e6330d5046a8c509a1e65ba6d7284c03e07cc0a38a06be34cce75",
     next := "" },
   -- disassembler.go Disassemble #0: range functionsByPkg
-  --   assemblies[path] = text(path, funcs); the shared buffer is Reset at the end of every iteration
+  --   assemblies[path] = text(path, funcs); the shared buffer is Reset at the end of every iteration; since fix C30-disassemble-same-line the functions of the package are taken from the slice allFunctions (discovery order) and stable-sorted by line, no longer collected from the map
   { file := "disassembler.go", fn := "Disassemble", cls := .distinctKeyUpdate,
-    hash := "c6bff1e29ac6f92c03f2b877c210babac382ab597306c5fd7625607b07d89dcc",
+    hash := "60ab0494507921f83c6fbfbc9784c0217e890b201e9de2fe7238029defed0d01",
     next := "" },
   -- disassembler.go Disassemble #1: range imports
   --   packages = append(packages, pkg); slices.Sort(packages)
   { file := "disassembler.go", fn := "Disassemble", cls := .collectThenSort,
     hash := "e825f3cd84d1b24cecb1f0a499a34e5012fcb7e5d92c794b72c513127c42b3f2",
     next := "fb6a789e96fdf9077fa61dca8ea6f3e0ce3e8cf39d02c01345b81c9fe6c77d70" },
-  -- disassembler.go Disassemble #2: range funcs
-  --   functions = append(functions, fn); sort.Slice by (line, name) — total on the functions of one package after fix C30-disassemble-same-line (before: by line only, ties in map order)
-  { file := "disassembler.go", fn := "Disassemble", cls := .collectThenSort,
-    hash := "9e5861ef92b56416917ed8d611f61c0c34b41bf86ea41544734ffa2b2abe801d",
-    next := "b5da8b06f0e6faa6dccf6470a11d95827b8e073f80e129f4503c33d8ccf68dcc" },
   -- disassembler.go disassembleFunction #0: range labelOf
   --   addresses[i] = addr; i++ ; sort.Ints(addresses): distinct addresses
   { file := "disassembler.go", fn := "disassembleFunction", cls := .collectThenSort,
